@@ -208,7 +208,7 @@ theorem elemOf_norm {K : Consts} {ts : TypeSystem} {cassA cassB : List Cas} {c :
   congr 1
   apply flatMap_congrFix
   intro f hf
-  obtain ⟨_, _, _, _, _, _, _, _, _, _, _, v, hv, hcase⟩ := hfeat f hf
+  obtain ⟨hres, _, _, _, _, _, _, _, _, _, _, v, hv, hcase⟩ := hfeat f hf
   unfold jmemF
   rw [hv, Option.getD_some]
   rcases hcase with ⟨_, ⟨vn, rfl, hsome⟩ | ⟨rfl, _⟩⟩ | ⟨_, _, hp⟩ | ⟨_, _, _, _, _, _, _, hr⟩
@@ -222,7 +222,8 @@ theorem elemOf_norm {K : Consts} {ts : TypeSystem} {cassA cassB : List Cas} {c :
     · rfl
     · unfold jmem
       simp only
-      rw [extInt_norm hcA hcB hconv hann f.name i hv]
+      rw [Json.extInt_xmlName cassB _ o f hres, Json.extInt_xmlName cassA _ o f hres,
+        extInt_norm hcA hcB hconv hann f.name i hv]
     · rfl
     · rfl
     · rfl
